@@ -48,6 +48,8 @@ struct HubInner {
     loss_permille: u64,
     // last token seen in a response sent from .0 to .1
     last_token: HashMap<(SocketAddr, SocketAddr), Vec<u8>>,
+    // responses delivered to an address: (from, bytes), oldest first (capped)
+    resp_seen: HashMap<SocketAddr, Vec<(SocketAddr, Vec<u8>)>>,
 }
 
 pub struct Hub {
@@ -107,8 +109,16 @@ impl Hub {
         let rendered = match Message::decode(&data) {
             Ok(m) => {
                 if let MessageBody::Response(r) = &m.body {
+                    let mut h = self.inner.lock().unwrap();
                     if let Some(tok) = &r.token {
-                        self.inner.lock().unwrap().last_token.insert((from, to), tok.clone());
+                        h.last_token.insert((from, to), tok.clone());
+                    }
+                    let v = h.resp_seen.entry(to).or_default();
+                    if v.len() < 64 {
+                        v.push((from, data.clone()));
+                    } else {
+                        v.remove(32);
+                        v.push((from, data.clone()));
                     }
                 }
                 render(&m)
@@ -346,6 +356,8 @@ struct RespSpec {
 enum Action {
     Inject(SocketAddr, SocketAddr, Vec<u8>),
     InjectMsg(SocketAddr, SocketAddr, String),
+    // forge a response towards a node from what it was sent before: kind, node addr, source to use
+    Forge(String, SocketAddr, SocketAddr),
     // from, to, tid hex, id, info-hash, port, token variant
     InjectAnn(SocketAddr, SocketAddr, String, InfoHash, InfoHash, Option<u16>, String),
     Search(String, InfoHash, bool, String),
@@ -452,6 +464,7 @@ pub fn sim(_args: &[String]) -> i32 {
                 let a = match p[2] {
                     "inject" => Action::Inject(parse_addr(p[3]), parse_addr(p[4]), hex::decode(p[5]).unwrap()),
                     "injectmsg" => Action::InjectMsg(parse_addr(p[3]), parse_addr(p[4]), p[5..].join(" ")),
+                    "forge" => Action::Forge(p[3].to_string(), parse_addr(p[4]), parse_addr(p[5])),
                     "injectann" => Action::InjectAnn(
                         parse_addr(p[3]),
                         parse_addr(p[4]),
@@ -515,6 +528,7 @@ pub fn sim(_args: &[String]) -> i32 {
                 dup_permille: dup,
                 loss_permille: loss,
                 last_token: HashMap::new(),
+                resp_seen: HashMap::new(),
             }),
         });
         let world = Arc::new(Mutex::new(world));
@@ -592,6 +606,41 @@ pub fn sim(_args: &[String]) -> i32 {
                     }
                     Err(e) => rec(format!("BADMSG {e}")),
                 },
+                Action::Forge(kind, node, other) => {
+                    let seen = hub.inner.lock().unwrap().resp_seen.get(&node).cloned().unwrap_or_default();
+                    if let Some((from, data)) = match kind.as_str() {
+                        "old" => seen.first().cloned(),
+                        _ => seen.last().cloned(),
+                    } {
+                        match kind.as_str() {
+                            // the same datagram again (duplicate / replay of an old one)
+                            "dup" | "old" => {
+                                let _ = hub.send(from, node, data);
+                            }
+                            // right transaction id, different source address
+                            "othersrc" => {
+                                let _ = hub.send(other, node, data);
+                            }
+                            // transaction id with one bit flipped in the message part / the action part
+                            "wrongmid" | "wrongaid" | "shorttid" => {
+                                if let Ok(mut m) = Message::decode(&data) {
+                                    let n = m.transaction_id.len();
+                                    if n == 8 {
+                                        match kind.as_str() {
+                                            "wrongmid" => m.transaction_id[7] ^= 1,
+                                            "wrongaid" => m.transaction_id[2] ^= 1,
+                                            _ => m.transaction_id.truncate(7),
+                                        }
+                                    }
+                                    let _ = hub.send(from, node, m.encode().unwrap());
+                                }
+                            }
+                            _ => {}
+                        }
+                    } else {
+                        rec(format!("FORGE_NOTHING {kind}"));
+                    }
+                }
                 Action::InjectAnn(from, to, tid, id, ih, port, variant) => {
                     let (kind, other) = match variant.split_once('@') {
                         Some((k, a)) => (k.to_string(), Some(parse_addr(a))),
